@@ -257,3 +257,43 @@ Section Loops.
         xstep. rewrite msg_call. xstep. rewrite <- !app_assoc. cbn [app]. rewrite Z.add_0_r. reflexivity.
   Qed.
 End Loops.
+
+(* ------------------------------------------------------------------ the invariant "text rows = window of the buffer at xtop" *)
+Section Window.
+  Variable ext : nat -> list val -> mem -> res (val * mem).
+  Variables (kl : nat) (h cols hl : Z).
+  Hypothesis Hk : kernel_ok ext kl h cols hl.
+  Variables (v : vst) (bl bln : nat) (lbs : list nat) (lines : list bytes) (ft : bytes) (d fuel : nat).
+  Hypothesis Hv : v_ok v.
+  Variable m : mem.
+  Hypothesis Hm : draw_mem m kl v bl bln lbs lines ft.
+  Hypothesis Hh : 0 <= h.
+  Hypothesis Ht : 0 <= v_xtop v.
+  Hypothesis Hth : v_xtop v + h <= 2147483647.
+  Notation f := (row_img lines ft (v_xrow v) (v_xleft v) (v_xhll v) (v_xhl v) hl).
+  Notation H := (Z.to_nat h).
+
+  (* vi_drawupdate(otop) run on the C text: the calls it logs turn a screen that shows the window at otop into the screen that shows the
+     window at xtop -- for every old and new top --, and every led_print lands on a text row *)
+  Theorem tr_drawupdate_window lg otop cur : log_at m kl lg -> (H < fuel)%nat -> 0 <= otop <= 2147483647 ->
+    exists evs, callx ext cprog fuel (S (S (S (S d)))) F_vi_drawupdate [VInt otop] m = Ok (VUndef, mlog m kl (lg ++ evs)) /\
+      s_rows (replay H (mkScr cur 0 (win rowimg f (Z.to_nat otop) H)) evs) = win rowimg f (Z.to_nat (v_xtop v)) H /\
+      forallb (print_inside H) evs = true.
+  Proof.
+    intros Hl Hf Ho. eexists. split; [apply (tr_vi_drawupdate ext kl h cols hl Hk v bl bln lbs lines ft d fuel Hv m Hm Hh Ht Hth lg otop Hl Hf Ho)|].
+    pose proof (update_keeps_window lines ft (v_xrow v) (v_xleft v) (v_xhll v) (v_xhl v) hl H cur (Z.to_nat otop) (Z.to_nat (v_xtop v))) as K.
+    pose proof (replay_update lines ft (v_xrow v) (v_xleft v) (v_xhll v) (v_xhl v) hl H (mkScr cur 0 (win rowimg f (Z.to_nat otop) H)) (Z.to_nat otop) (Z.to_nat (v_xtop v)) eq_refl) as (_ & _ & K2).
+    cbv zeta in K, K2. rewrite !Z2Nat.id in K, K2 by lia. split; assumption.
+  Qed.
+  (* vi_drawagain(xcol, -1): whatever the text rows showed, afterwards they show the window at xtop *)
+  Theorem tr_drawagain_window lg xcol s : log_at m kl lg -> (H < fuel)%nat -> s_ctx s = 0 -> length (s_rows s) = H ->
+    exists evs, callx ext cprog fuel (S (S (S (S d)))) F_vi_drawagain [xcol; VInt (-1)] m = Ok (VUndef, mlog m kl (lg ++ evs)) /\
+      s_rows (replay H s evs) = win rowimg f (Z.to_nat (v_xtop v)) H.
+  Proof.
+    intros Hl Hf Hc Hlen. eexists. split; [apply (tr_vi_drawagain ext kl h cols hl Hk v bl bln lbs lines ft d fuel Hv m Hm Hh Ht Hth lg xcol (-1) Hl Hf)|].
+    rewrite ag_evs_all by lia.
+    pose proof (replay_again_all lines ft (Z.to_nat (v_xtop v)) (v_xrow v) (v_xleft v) (v_xhll v) (v_xhl v) hl H s Hc Hlen) as [K _].
+    unfold again_evs in K. cbn [Z.ltb Z.compare] in K. rewrite Z2Nat.id in K by lia. exact K.
+  Qed.
+End Window.
+
